@@ -60,6 +60,10 @@ async def execute_server_command(future_loop, result_future, klong, sym, command
         klong._context.push({KGSym('.ws.h'): nc})
         r = klong[sym]
         if callable(r):
+            if isinstance(command, list):
+                # a decoded JSON array becomes a Klong list the way a list literal does, so
+                # mixed ([1,"a"]) and nested ([1,[2,3]]) arrays reach the handler intact
+                command = klong.backend.kg_asarray(command)
             response = r(nc, command)
         else:
             raise KlongException(f"not callable: {command.sym}")
